@@ -94,6 +94,78 @@ class XlsxRT:
                 "exhaustive": False, "design": res["design"], "impl_to_spec": res["i2s"], "roundtrips": r["roundtrips"], "operations": r["ops"], "roundtrip_failures": r["roundtrip_failures"]}
 
 
+class FramesFam:
+    PROPS = ["C10", "C17", "C32"]
+    ASSUMPTIONS = ["one workbook (3 sheets, 40 formulas: cross-sheet references, quoted sheet names, references and a range on sheets that do not exist, global / sheet-local / LAMBDA / range names and an unknown name, whole-column range, TEXT and & (locale-dependent), errors, a conditional format whose rule uses a name) driven through seeded random sequences of 25 operations: set_language (5), set_locale (6), rename / move / duplicate / delete sheet, rename a defined name, type the shown content of a formula back (in whatever language is active), to_bytes/from_bytes, xlsx export+import",
+                   "before and after every operation the components named in FrameLaws.tla are projected: all values (in English spelling), values of formulas without SHEET/CELL/INDIRECT/FORMULATEXT/ADDRESS, non-text values of formulas without TEXT/VALUE/FIXED/DOLLAR/NUMBERVALUE/DATEVALUE/TIMEVALUE/&, stored formula texts (worksheet.shared_formulas), defined names as stored, conditional formats as stored, sheet names spelled by each formula and defined names used by each formula (read from the parsed trees)",
+                   "TLC evaluates the law of each event (TraceFrames.tla); a sheet rename to a name that dangling references already spell may change values (shown by the design model Frames.tla) and carries no verdict on values; a global name is not renamed on sheets that shadow it",
+                   "attribution: language / locale / re-entry laws C10 (names also C32); sheet rename / move / duplicate C17 (names C32); delete sheet, rename name, reload, xlsx: C32"]
+
+    @staticmethod
+    def run(d, tier, seed):
+        res = {"violations": {p: [] for p in FramesFam.PROPS}}
+        rc, out, dt = tlc("Frames.tla", os.path.join(SPEC, "Frames.cfg"), os.path.join(d, "meta_design"), workers=4, timeout=600)
+        st = tlc_stats(out)
+        if st is None or "Error:" in out or "is violated" in out:
+            raise ToolError("Frames.tla failed:\n" + out[-2000:])
+        res["design"] = {"states": st["distinct"], "transitions": st["generated"], "seconds": round(dt, 1)}
+        runs = 80 if tier == "quick" else 1200
+        odir = os.path.join(d, "out")
+        rr, dt2 = icverif(["frames", "--out", odir, "--seed", seed, "--runs", runs, "--steps", 25], timeout=3400)
+        tp = os.path.join(odir, "frames.ndjson")
+        ok, vout, dtv = validate_trace("TraceFrames.tla", os.path.join(SPEC, "TraceFrames.cfg"), tp, os.path.join(d, "m"), timeout=3400)
+        if not ok:
+            raise ToolError("TraceFrames did not consume the whole trace:\n" + vout[-3000:])
+        vst = tlc_stats(vout)
+        details = {}
+        for line in open(os.path.join(odir, "detail.ndjson")):
+            x = json.loads(line)
+            details[x["l"]] = x
+        events = {}
+        with open(tp) as f:
+            for n, line in enumerate(f, 1):
+                if n in details and '"ev":"reset"' not in line:
+                    pass
+        seen = {}
+        printed = 0
+        viol_lines = {}
+        for v in tla_tuple_lines(vout, "VIOL"):
+            _, l, prop, law = v[:4]
+            printed += 1
+            x = details.get(l, {})
+            last = (x.get("program") or [{}])[-1]
+            # residue: the first difference of the component the law speaks about, normalised
+            comp = {"language-changes-values": "vals", "locale-changes-values": "vals_nl", "re-entry-changes-values": "vals", "rename-changes-values": "vals_ns", "move-changes-values": "vals_ns",
+                    "rename-name-changes-values": "vals"}.get(law, "names" if "names" in law else ("stored" if "stored" in law else ("cfs" if "conditional" in law else "")))
+            dd = (x.get("diff", {}).get(comp) or x.get("diff", {}).get("copy_vs_source") or [""])[0]
+            parts = (dd.split("\t") + ["", ""])[:3]
+            residue = re.sub(r"R\d+C\d+", "R*C*", re.sub(r"\[\d+\]", "[*]", re.sub(r"^\.\d+", ".*", parts[0]))) + "|" + re.sub(r"\d", "N", parts[2])[:50]
+            sig = f"{prop}|{law}|{last.get('act', '')}|{residue}"
+            if sig in seen:
+                seen[sig]["count"] += 1
+                continue
+            what = f"{law} after {last.get('act')} {json.dumps(last.get('args'))} (language {x.get('lang')}, locale {x.get('locale')}): {dd[:200]}"
+            vv = {"signature": sig, "what": what, "count": 1,
+                  "payload": {"property": prop, "family": "frames", "signature": sig, "what": what, "direction": "I->S", "program": x.get("program"), "diff": x.get("diff"), "seed": seed, "run": x.get("run")}}
+            seen[sig] = vv
+            res["violations"][prop].append(vv)
+        res["run"] = rr
+        res["i2s"] = {"events": vst["distinct"] - 1, "violations_printed": printed, "seconds": round(dtv + dt2, 1)}
+        os.remove(tp)
+        return res
+
+    @staticmethod
+    def evidence_for(prop, res):
+        r = res["run"]
+        mine = {"C10": ("set_lang", "set_locale", "retype"), "C17": ("rename_sheet", "move_sheet", "dup_sheet"), "C32": ("set_lang", "set_locale", "rename_sheet", "move_sheet", "del_sheet", "rename_name", "reload", "xlsx")}[prop]
+        n = sum(c for k, c in r["kinds"].items() if k.endswith(":ok") and k.split(":")[0] in mine)
+        return {"states": res["design"]["states"] + res["i2s"]["events"], "transitions": res["design"]["transitions"] + res["i2s"]["events"],
+                "traces_validated_against_impl": r["runs"], "samples": [{"operation_counts": r["kinds"]}],
+                "evaluations": n, "distinct_nontrivial": len([k for k in r["kinds"] if k.endswith(":ok") and k.split(":")[0] in mine]),
+                "rule": "every recorded operation event validated by TLC against the law of its action in TraceFrames.tla / FrameLaws.tla; evaluations = successful events of the operation kinds this property speaks about; distinct_nontrivial = those kinds.",
+                "exhaustive": False, "design": res["design"], "impl_to_spec": res["i2s"], "operations": r["ops"]}
+
+
 class ReentryFam:
     PROPS = ["C18"]
     ASSUMPTIONS = ["inputs: every string up to length 3 (thorough 4) over the 17-character alphabet {1 2 0 , . - + e % $ EUR / space : ' = T} and a vocabulary of 145 entries (booleans and errors in the five languages, dates, times, percentages, currencies, grouped, scientific, very small and very large numbers, look-alike strings with and without the quote prefix, 25 formulas incl. malformed ones, Unicode / control-character text, a URL)",
@@ -198,3 +270,6 @@ def _wrap(cls, name):
 
 
 TABLE = {"C24": _wrap(XlsxRT, "xlsxrt"), "C18": _wrap(ReentryFam, "reentry")}
+_fr = _wrap(FramesFam, "frames")
+for _p in FramesFam.PROPS:
+    TABLE[_p] = _fr
